@@ -22,7 +22,8 @@ EqHeaps ==
    H2b(T23, T23ord, "csr_unsorted", "dense", "ne:order"), H2b(T23, T23md, "dense", "csc", "ne:metadata"),
    H2b(T23, T23type, "dense", "dense", "ne:type"), H2b(T23, T23nomd, "csr_zeros", "dense", "ne:nomd"),
    H2b(T23, T23zero, "csr_zeros", "csr_zeros", "ne:zero-vs-value"),
-   H2b(T23, T23idext, "dense", "dense", "ne:id-extended"), H2b(T23idext, T23, "dense", "csr", "ne:id-extended-rev")}
+   H2b(T23, T23idext, "dense", "dense", "ne:id-extended"), H2b(T23idext, T23, "dense", "csr", "ne:id-extended-rev"),
+   H2b(Z22, Z22, "dense", "csr_zeros", "eq:all-zero"), H2b(F23num, F23num, "csr_unsorted", "dense", "eq:numeric-md")}
 
 H3b(t, u, v, b1, b2, b3, tag) == [heap |-> [a |-> Fresh(t), b |-> Fresh(u), c |-> Fresh(v)],
                                   builds |-> [a |-> b1, b |-> b2, c |-> b3], tag |-> tag, gmd |-> <<>>]
@@ -45,7 +46,7 @@ MergeHeaps ==
    H2b(MAo, MB0, "dense", "dense", "mrg:recv-obs-md-only"), H2b(MAs, MBp, "csr", "dense", "mrg:recv-samp-md-only"),
    H3(MA0, MB0, MC0, "mrg:three"), H3(MD0, MA0, MBp, "mrg:three-b")}
 ConcatHeaps ==
-  {H2b(MA, ME, "dense", "csr_unsorted", "cat:obs-disjoint-permuted"), H2b(MA, MD0, "csc", "dense", "cat:disjoint-both"),
+  {H2b(MA0, ME2, "dense", "dense", "cat:untyped-then-typed"), H2b(T33n, MP3, "dense", "csr", "cat:three-cycle-of-observations"), H2b(MA, ME, "dense", "csr_unsorted", "cat:obs-disjoint-permuted"), H2b(MA, MD0, "csc", "dense", "cat:disjoint-both"),
    H2b(MA, MB, "dense", "dense", "cat:overlapping"), H2b(MA, MG, "csr_zeros", "dense", "cat:samp-disjoint-permuted"),
    H2b(MA0, MDm, "dense", "dense", "cat:first-without-md"),
    H3(MA, MF, MC0, "cat:three-partial"), H3(MA0, MD0, MF, "cat:three-b"), H3(MN, ME, MF, "cat:three-c")}
@@ -54,7 +55,7 @@ CountHeaps ==
    H1(CT23, "csr_zeros", "CT23z"), H1(T22, "coo", "T22"), H1(T32, "dense", "T32")}
 HG(t, b, tag, g) == [heap |-> [a |-> Fresh(t)], builds |-> [a |-> b], tag |-> tag, gmd |-> g]
 FileHeaps ==
-  {H1(F23cancel, "csr", "F23cancel"), H1(F23lead0, "dense", "F23lead0"), H1(F23num, "dense", "F23num"), H1(F23tax, "csr_unsorted", "F23tax"), H1(F11, "dense", "F11"),
+  {H1(F23mix, "dense", "F23mix"), H1(F23cancel, "csr", "F23cancel"), H1(F23lead0, "dense", "F23lead0"), H1(F23num, "dense", "F23num"), H1(F23tax, "csr_unsorted", "F23tax"), H1(F11, "dense", "F11"),
    H1(F13, "csc", "F13"), H1(F31, "coo", "F31"), H1(F33dense, "csr_unsorted", "F33dense"),
    H1(T23, "csr_zeros", "T23z"), H1(T33, "csr_zeros", "T33z"), H1(T32, "csc", "T32"), H1(T22, "lil", "T22"),
    H1(F24frac, "csr_zeros", "F24frac"), H1(F22zero, "dense", "F22zero"), H1(F33part, "dense", "F33part"), H1(F22e, "dense", "F22e"),
@@ -64,22 +65,22 @@ FileHeaps ==
    HG(F33dense, "csr", "F33gmd2", <<<<"observation", "phylogeny", "newick", "((o1,o2),o3);">>,
                                      <<"observation", "second", "txt", "another entry">>,
                                      <<"sample", "g1", "txt", "x">>, <<"sample", "g2", "txt", "y">>>>)}
-WideHeaps == {H1(W2x10, "dense", "W2x10"), H1(W2x10, "csc", "W2x10c")}
+WideHeaps == {H1(W2x10, "dense", "W2x10"), H1(W2x10, "csc", "W2x10c"), H1(W10x2, "dense", "W10x2")}
 JsonHeaps == FileHeaps \cup {H1(F23json, "dense", "F23json"), H1(F23odd, "csr_unsorted", "F23odd")}
 SumHeaps ==
-  {H1(F23neg, "dense", "F23neg"), H1(F23neg, "csr_zeros", "F23negz"), H1(F23cancel, "csc", "F23cancel"), H1(CT34, "dense", "CT34"), H1(CT34, "csr_zeros", "CT34z"), H1(CT23, "csr_unsorted", "CT23u"), H1(CT23, "csc", "CT23c"),
+  {H1(F23ord, "dense", "F23ord"), H1(F23neg, "dense", "F23neg"), H1(F23neg, "csr_zeros", "F23negz"), H1(F23cancel, "csc", "F23cancel"), H1(CT34, "dense", "CT34"), H1(CT34, "csr_zeros", "CT34z"), H1(CT23, "csr_unsorted", "CT23u"), H1(CT23, "csc", "CT23c"),
    H1(F23num, "dense", "F23num"), H1(F33dense, "coo", "F33dense"), H1(T33, "csr_zeros", "T33z"), H1(T23, "lil", "T23"),
    H1(F31, "dense", "F31"), H1(F13, "csr_zeros", "F13z"), H1(F24frac, "dense", "F24frac")}
 CtorHeaps ==
-  {H1(T23, "dense", "T23"), H1(T32, "dense", "T32"), H1(T33, "dense", "T33"), H1(T22, "dense", "T22"), H1(F11, "dense", "F11"),
+  {H1(TZc, "dense", "TZc"), H1(TZr, "dense", "TZr"), H1(T23, "dense", "T23"), H1(T32, "dense", "T32"), H1(T33, "dense", "T33"), H1(T22, "dense", "T22"), H1(F11, "dense", "F11"),
    H1(F13, "dense", "F13"), H1(F31, "dense", "F31"), H1(F24frac, "dense", "F24frac"), H1(CT34, "dense", "CT34"),
    H1(F23num, "dense", "F23num"), H1(T23zero, "dense", "T23zero")}
 ValHeaps ==
   {H1(F23lead0, "dense", "F23lead0"), H1(F23num, "dense", "F23num"), H1(F23tax, "csr_unsorted", "F23tax"), H1(T23, "csr_zeros", "T23z"),
    H1(T33, "csc", "T33"), H1(F33dense, "dense", "F33dense"), H1(F13, "dense", "F13"), H1(F24frac, "coo", "F24frac")}
-Len4Heaps == {H1(T44, "csr_unsorted", "T44u"), H1(T44, "csc", "T44c"), H2(T44, T44p, "dense", "T44+p")}
+Len4Heaps == {H2(SQ33, SQ33p, "dense", "SQ33+p"), H2(SQ33, SQ33p, "csr_unsorted", "SQ33u+p"), H1(T44, "csr_unsorted", "T44u"), H1(T44, "csc", "T44c"), H2(T44, T44p, "dense", "T44+p")}
 HeapSets == [len4 |-> Len4Heaps, wide |-> WideHeaps, one |-> {H1(T22, "dense", "T22")}, pairs |-> MergeHeaps \cup ConcatHeaps \cup CountHeaps, val |-> ValHeaps, sum |-> SumHeaps, ctor |-> CtorHeaps, files |-> FileHeaps, json |-> JsonHeaps,std |-> MCInitHeaps, eq |-> EqHeaps, eq3 |-> Eq3Heaps, all |-> MCInitHeaps \cup EqHeaps, mrg |-> MergeHeaps,
-             cat |-> ConcatHeaps, cnt |-> CountHeaps, stdcnt |-> MCInitHeaps \cup CountHeaps]
+             cat |-> ConcatHeaps, cnt |-> CountHeaps, stdcnt |-> MCInitHeaps \cup CountHeaps \cup {H1(F23cancel, "csr", "F23cancel")}]
 \* C08's own scope: EVERY matrix of a given shape over a small value alphabet (GEN_UNIV = JSON file
 \* [n, m, vals, k, salt]; k > 0 takes a deterministic stride sample of k matrices), with metadata naming the
 \* ID on the observation axis, and a hidden layout chosen by the content
@@ -138,6 +139,6 @@ MCPhases == [i \in 1..Len(PhaseSpec) |->
                 pick |-> PhaseSpec[i].pick, salt |-> PhaseSpec[i].salt, recv |-> PhaseSpec[i].recv]]
 RankList == <<"g0", "g1", "gA", "gB", "gC", "g_nomd", "g_o1", "g_o2", "g_o3", "g_o4", "g_p", "g_q", "g_s1", "g_s2", "g_s3",
               "g_s4", "g_x", "g_y", "gc", "n1", "n2", "n3", "n4", "n5", "n6", "o1", "o2", "o3", "o4", "o5", "s1", "s2",
-              "s3", "s4", "s5", "s6", "s7", "s8", "s9", "t1", "zz">>
+              "s3", "s4", "s5", "s6", "s7", "s8", "s9", "t1", "x1", "x2", "x3", "zz">>
 MCNatRank == [x \in SeqSet(RankList) |-> CHOOSE k \in 1..Len(RankList) : RankList[k] = x]
 =============================================================================
